@@ -1,5 +1,5 @@
 (* C18 — scalar encodings and helper conversions are exact inverses over their domain. *)
-From PyUbx Require Import Base Bytes PyFloat Types Strs Fletcher Helpers Consts Bytes_lemmas Fletcher_lemmas Codec_lemmas.
+From PyUbx Require Import Base Bytes PyFloat Types Strs Fletcher Helpers Consts Bytes_lemmas Fletcher_lemmas Codec_lemmas Helper_lemmas.
 Open Scope Z_scope.
 
 (* integer types E, I, L, U of EVERY width (not only those in ubxtypes_core): every in-range value
@@ -60,3 +60,23 @@ Theorem C18_get_bits : forall bf p, bf <> [] ->
     get_bits bf (Npos p) = Some (Ok (N.land (N.shiftr (dec_be bf) i) (N.shiftr (Npos p) i))).
 Proof. exact c18_get_bits. Qed.
 Print Assumptions C18_get_bits.
+
+(* att2name / att2idx invert the suffixing the message walk applies (f"_{i:02d}" per group level): for every base name
+   without '_' and every list of repeat indices >= 1 (any nesting depth, any magnitude - 3 or more digits included) *)
+Theorem C18_att2name : forall base idx, no_us base -> all_pos idx -> att2name (base ++ suffix idx)%string = base.
+Proof. exact att2name_suffix. Qed.
+Print Assumptions C18_att2name.
+
+Theorem C18_att2idx : forall base idx, no_us base -> all_pos idx ->
+  att2idx (base ++ suffix idx)%string =
+  match idx with
+  | [] => IdxNone                        (* 0: not grouped *)
+  | [i] => IdxOne (N.of_nat i)           (* one level: the integer *)
+  | _ => IdxMany (map N.of_nat idx)      (* nested: the tuple *)
+  end.
+Proof. exact att2idx_suffix. Qed.
+Print Assumptions C18_att2idx.
+
+Example C18_att2idx_example : att2idx "gsid_03_104" = IdxMany [3; 104]%N /\ att2name "gsid_03_104" = "gsid"%string.
+Proof. split; vm_compute; reflexivity. Qed.
+
